@@ -1219,6 +1219,9 @@ func main() {
 		})
 		return found
 	}, map[string]string{"s.allowP": "allowP", "req.M": "m", "req.E": "e", "req.R": "r", `""`: "([] : List UInt8)"})
+	// whole-function translations of the member parser and the hand-written encoder (imp.go)
+	guard(&fs, []string{"ParseSt", "psFail", "parseField", "parsePost", "parseJSONResets"}, func() { emitParseJSON(&fs, root, c, funcs) })
+	guard(&fs, []string{"toJSON"}, func() { emitToJSON(&fs, root, c, funcs) })
 	fs.WriteString("end Jrpc.Gen.Funcs\n")
 	write(*out, "Funcs.lean", fs.String())
 
